@@ -5,3 +5,4 @@ import NanoVerif.Model.Transformed
 import NanoVerif.Model.Decompose
 import NanoVerif.Model.Gradient
 import NanoVerif.Model.Wire
+import NanoVerif.Model.Palette
